@@ -61,7 +61,7 @@ ShapeOpts(sh) == {kd \in OptKinds : CASE kd = "MFBO" -> sh.mfbo [] kd = "MH2O" -
 MayReject(sh) == \/ sh.ntex = 0 \/ (sh.nddf > 0 /\ sh.nmdl = 0) \/ (sh.nmodf > 0 /\ sh.nwmo = 0)
                  \/ \E kd \in ShapeOpts(sh) : sh.ver < KindMin(kd)
 ExpectedMcnks(sh) == CASE sh.mcnk = "auto" -> 256 [] sh.mcnk = "n256" -> 256 [] sh.mcnk = "n17" -> 17 [] OTHER -> 1
-TopSections  == <<"tex", "mdl", "wmo", "ddf", "modf", "mfbo", "mh2o", "mtxf", "mamp", "mtxp", "bmesh">>
+TopSections  == <<"tex", "mdl", "wmo", "ddf", "modf", "mfbo", "wins", "wbm", "wvd", "wattr", "mtxf", "mamp", "mtxp", "bmesh">>
 McnkSections == <<"khdr", "mcvt", "mcnr", "mcly", "mcrf", "mcal", "mcsh", "mccv", "mclq", "mcse", "mclv", "xsub">>
 \* expected token of a section of the first parse, from the input tokens and the version rules
 Expected(sh, inp, sec) ==
